@@ -33,6 +33,7 @@ type clientRec struct {
 	msgErr      error
 	conn        *rt.Conn
 	dropped     bool
+	cbFail      bool // the server application fails this session from inside its Established callback
 }
 
 type st struct {
@@ -88,7 +89,7 @@ func body(nclients int, withInproc bool) func(x *harness.X) {
 		sendMsg := rt.Choose(2) == 1
 		// what the last client does: a normal session, a handshake the server refuses
 		// (unknown role), or a handshake that stalls after the server's first answer
-		lastKind := []string{"normal", "refused", "stalled", "drops"}[rt.Choose(4)]
+		lastKind := []string{"normal", "refused", "stalled", "drops", "cb-finish", "cb-fail"}[rt.Choose(6)]
 		s.lastKind = lastKind
 		mux := &lime.EnvelopeMux{}
 		mux.MessageHandlerFunc(nil, func(ctx context.Context, m *lime.Message, snd lime.Sender) error {
@@ -109,10 +110,22 @@ func body(nclients int, withInproc bool) func(x *harness.X) {
 			}
 			return lime.MemberAuthenticationResult(), nil
 		}
+		lastName := fmt.Sprintf("cli%d", nclients-1)
 		cfg.Established = func(id string, c *lime.ServerChannel) {
 			s.est[id]++
 			s.order = append(s.order, "est:"+id)
 			x.Obs("established-callback")
+			if c.RemoteNode().Name == lastName && strings.HasPrefix(lastKind, "cb-") {
+				// the application ends the session from inside its Established callback
+				cctx, cancel := context.WithTimeout(context.Background(), 10*time.Second)
+				defer cancel()
+				if lastKind == "cb-finish" {
+					_ = c.FinishSession(cctx)
+				} else {
+					_ = c.FailSession(cctx, &lime.Reason{Code: 9, Description: "not welcome"})
+				}
+				x.Obs("established-callback ended the session (%s)", lastKind)
+			}
 		}
 		cfg.Finished = func(id string) {
 			s.fin[id]++
@@ -146,6 +159,7 @@ func body(nclients int, withInproc bool) func(x *harness.X) {
 			if kind == "refused" {
 				c.name = "mallory"
 			}
+			c.cbFail = kind == "cb-fail"
 			s.clients = append(s.clients, c)
 			useInproc := withInproc && i == 1
 			if kind == "stalled" && !useInproc {
@@ -307,7 +321,11 @@ func final(x *harness.X, res *rt.Result) {
 				x.Failf(fmt.Sprintf("callbacks:est%d-fin%d:dropped", s.est[c.sid], s.fin[c.sid]), "session %s of %s was established and then dropped by the client: Established fired %d times, Finished %d times %s", c.sid, c.name, s.est[c.sid], s.fin[c.sid], hist)
 			}
 		} else if c.established {
-			if !c.streamsDone || c.finalState != lime.SessionStateFinished {
+			want := lime.SessionStateFinished
+			if c.cbFail {
+				want = lime.SessionStateFailed
+			}
+			if !c.streamsDone || c.finalState != want {
 				x.Failf("client-not-finished", "%s had an established session but observed state %v (streams ended=%v) %s", c.name, c.finalState, c.streamsDone, hist)
 			}
 			if s.est[c.sid] != 1 || s.fin[c.sid] != 1 {
